@@ -1,4 +1,5 @@
 import Proofs.AggregateCheck
+import Proofs.AggregateObject
 
 /-!
 # C19 — Ensemble aggregators implement weighted mixtures consistently
@@ -172,6 +173,74 @@ theorem C19_checker_model_passes {tol : Rat} (ht : 0 ≤ tol) {c : Nat} (hc : 0 
   · obtain ⟨m, v, a, e, h1, h2⟩ := C19_total_variance ws h hW
     exact ⟨m, v, a, e, h1, (checkTotalVariance_iff _ _ _ _).2 ⟨by rw [h2]; linarith, by rw [h2]; linarith⟩⟩
 
+/-! ### the aggregator object: `aggregate()` is a function of its own arguments at the time of the call
+
+Model `Model/AggregateObject.lean`: any number of `aggregate()` calls in progress on ONE aggregator
+object, interleaved statement by statement in any order (threads sharing the object, a call made
+while the lazily evaluated weights of another call are being read, a call that is itself suspended
+half-way).  `g seen x` is what a call returns from its own input `x` when the uses of the array
+namespace saw the namespaces `seen`; `runLocal` is the code after fix `d3ad57e` (branch `fix-c19`). -/
+
+/-- **purity / re-entrancy.**  Under every schedule `evs` every call on the object (frame `p`) is one
+that a caller made (`enter` event), and once it is done its result is `g` at the call's OWN namespace
+and OWN input — an expression in which neither the schedule nor any other call occurs. -/
+theorem C19_reentrant {α β : Type} (g : List Ns → α → β) (evs : List (Ev α)) :
+    ∀ p ∈ runLocal [] evs, Ev.enter p.1 p.2.call ∈ evs ∧
+      (p.2.done = true →
+        p.2.result g = some (g (List.replicate p.2.call.reads p.2.call.own) p.2.call.x)) := by
+  intro p hp
+  have h := runLocal_inv evs [] (fun id c => Ev.enter id c ∈ evs) (by simp) (fun _ _ h => h) p hp
+  refine ⟨h.2, fun hd => ?_⟩
+  simp [Frame.result, hd, h.1.seen_of_done hd]
+
+/-- … which is the result of the same call made alone on an object of its own -/
+theorem C19_reentrant_alone {α β : Type} (g : List Ns → α → β) (c : Call α) (id : Nat) :
+    ∃ f, runLocal [] (.enter id c :: List.replicate (2 + c.reads) (.step id)) = [(id, f)] ∧ f.call = c ∧
+      f.result g = some (g (List.replicate c.reads c.own) c.x) := by
+  have hs := stepsLocal_pc (2 + c.reads) (Frame.start c) (by simp [Frame.start])
+  generalize hF : stepsLocal (2 + c.reads) (Frame.start c) = F at hs
+  have hpc : F.pc = 2 + c.reads := by simpa [Frame.start] using hs.1
+  have hcall : F.call = c := by simpa [Frame.start] using hs.2
+  have hrun : runLocal [] (.enter id c :: List.replicate (2 + c.reads) (.step id)) = [(id, F)] := by
+    simp [runLocal, runLocal_alone, hF]
+  refine ⟨F, hrun, hcall, ?_⟩
+  have hd : F.done = true := by simp [Frame.done, hpc, hcall]
+  have := (C19_reentrant g _ (id, F) (by rw [hrun]; simp)).2 hd
+  simpa [hcall] using this
+
+/-- instance: `MeanAggregator` on MaskedArray members with explicit weights — whatever else runs on
+the object, a finished call returns the weighted mean over the members present at the cell, of ITS
+OWN weights and members (`(meanAgg ws ys).loc`, the subject of `C19_between` / `C19_masked_ignored`) -/
+theorem C19_reentrant_mean (evs : List (Ev (List Rat × List Cell))) :
+    ∀ p ∈ runLocal [] evs, p.2.call.masked = true → 0 < p.2.call.reads → p.2.done = true →
+      p.2.result meanLocSeen = some (meanAgg p.2.call.x.1 p.2.call.x.2).loc := by
+  intro p hp hm hr hd
+  rw [(C19_reentrant meanLocSeen evs p hp).2 hd, (C19_between_loc _ _ []).1]
+  obtain ⟨n, hn⟩ : ∃ n, p.2.call.reads = n + 1 := ⟨p.2.call.reads - 1, by omega⟩
+  simp [hn, List.replicate_succ, meanLocSeen, Call.own, hm, averageIn]
+
+/-- two callers of one `MeanAggregator`: a call on masked members (weights 1, 3; member 0 masked at the
+cell, member 1 predicts 4) is at its `average` when a call on plain members starts -/
+def racePlain : List (Ev (List Rat × List Cell)) :=
+  [.enter 0 ⟨true, 1, ([1, 3], [none, some 4])⟩, .step 0, .step 0,
+   .enter 1 ⟨false, 1, ([1], [some 2])⟩, .step 1, .step 0]
+
+/-- the same with a second call on MASKED members that is suspended right after its `self._np = np` -/
+def raceMasked : List (Ev (List Rat × List Cell)) :=
+  [.enter 0 ⟨true, 1, ([1, 3], [none, some 4])⟩, .step 0, .step 0,
+   .enter 1 ⟨true, 1, ([1], [some 2])⟩, .step 1, .step 0]
+
+/-- **known finding of the pinned tree** (`self._np` on the instance, `runShared`): in both schedules the
+first call finishes with `3 = 3·4/(1+3)` — `np.average` divides by the weights of all members — instead
+of its own statistic `4`; the fixed code returns `4` under the same schedules. -/
+theorem C19_shared_namespace_not_reentrant :
+    (findFrame 0 (runShared .np [] racePlain).2).bind (·.result meanLocSeen) = some (some 3) ∧
+    (findFrame 0 (runShared .np [] raceMasked).2).bind (·.result meanLocSeen) = some (some 3) ∧
+    (meanAgg [1, 3] [none, some 4]).loc = some 4 ∧
+    (findFrame 0 (runLocal [] racePlain)).bind (·.result meanLocSeen) = some (some 4) ∧
+    (findFrame 0 (runLocal [] raceMasked)).bind (·.result meanLocSeen) = some (some 4) := by
+  decide +kernel
+
 /-! ### non-vacuity and regression witnesses -/
 
 -- weights .7/.2/.1 (as 7/2/1: only ratios matter), member 1 masked
@@ -218,5 +287,12 @@ example : checkUncertainty 0 (1 / 2) (1 / 2) 0 (1 / 2) = true := by decide +kern
 example : checkRange 0 1 (-2) = false := by decide +kernel
 example : checkTotalVariance 0 (11 / 10) (1 / 4) (17 / 20) = true ∧ checkTotalVariance 0 (11 / 10) (1 / 4) (14 / 9) = false := by
   decide +kernel
+
+-- the object model: three calls interleaved, every finished call saw only its own namespace
+example : (runLocal [] ([.enter 0 ⟨true, 2, ()⟩, .step 0, .enter 1 ⟨false, 1, ()⟩, .step 1, .step 0, .enter 2 ⟨true, 1, ()⟩,
+    .step 2, .step 1, .step 0, .step 2, .step 1, .step 0, .step 2] : List (Ev Unit))).map
+      (fun p => (p.1, p.2.done, p.2.seen)) = [(2, true, [.ma]), (1, true, [.np]), (0, true, [.ma, .ma])] := by
+  decide +kernel
+example : (⟨true, 1, ([1, 3], [none, some 4])⟩ : Call (List Rat × List Cell)).own = .ma := by decide
 
 end DH.Aggregate
